@@ -52,7 +52,16 @@ def gen_head_mapping(rng, shape=None, n=None, noise=True, groups=1):
         for h in range(lo, hi + 1):
             t = T(h) - cs[sid] + (dyadic(rng, -2, 2) if noise else 0.0)
             hm.setdefault(h, []).append((sid, t))
-    return hm, dict(ranges=ranges, cs=cs, slope=slope, shape=shape)
+    flat = []
+    if rng.random() < 0.35:
+        # levels at which every crossing value is the same number (e.g. rises starting on one grid level all have
+        # depth 0 there): zero spread AT the level, but the level still couples the offsets of its intervals
+        shared = [h for h, seq in hm.items() if len(seq) >= 2]
+        for h in rng.sample(shared, min(len(shared), rng.randrange(1, 3))):
+            v = rng.choice([0.0, dyadic(rng, -50, 50)])
+            hm[h] = [(sid, v) for sid, _ in hm[h]]
+            flat.append(h)
+    return hm, dict(ranges=ranges, cs=cs, slope=slope, shape=shape, flat=flat)
 
 
 def components(hm):
